@@ -108,6 +108,14 @@ func (p *pg) genC15() (Config, Plan) {
 // genC08: stable-store operations mixed with log operations, clean reopens and
 // crashes after (and inside) acknowledged Sets.
 func (p *pg) genC08() (Config, Plan) {
+	if p.r.Intn(4) == 0 {
+		// concurrent half: the C06 workload (writer + readers + rotation) with a
+		// stable-store client beside it, on the real BoltMetaDB
+		c, plan := p.genC06("C08")
+		c.Meta = "bolt"
+		c.StableTask = true
+		return c, plan
+	}
 	c := p.baseConfig("C08")
 	c.Strict = p.r.Intn(3) == 0
 	c.Meta = "bolt"
